@@ -1,11 +1,14 @@
 (* Spherical geometry over R for the generated angle_tools functions (Gen/Sphere.v):
-   gcd (haversine), bear (position angle), translate (destination point).
+   gcd (atan2 / Vincenty form on the sphere), bear (position angle), translate (destination point).
    Interface (used by C17, and by C16/C01 for pixel<->sky vectors and ellipses):
      uvec, dot, north, east                      unit vector of (ra, dec) and the local tangent frame
-     hav, bear_y, bear_x, tr_factor, tr_y, tr_x  normal forms of the generated bodies
+     sep_y, sep_x, sep_z, bear_y, bear_x, tr_factor, tr_y, tr_x  normal forms of the generated bodies
      gcd_eq, bear_eq, translate_eq               the ONLY lemmas that look inside the generated text
-     hav_dot (chord form), gcd_sym, gcd_range, gcd_vector, gcd_angle, gcd_zero_iff, gcd_triangle,
-     bear_frame, bear_polar, translate_gcd, translate_bear, translate_zero, atan2 lemmas.
+     gcd_cross (gcd = atan2 |u x v| (u.v)), gcd_acos (bridge: atan2 |u x v| (u.v) = acos (u.v)), hav (haversine =
+     squared half chord), hav_dot,
+     gcd_hav / gcd_asin (the haversine form 2 asin sqrt hav, now a derived lemma), gcd_sym, gcd_range, gcd_vector,
+     gcd_angle, gcd_zero_iff, gcd_triangle, bear_frame, bear_polar, translate_gcd, translate_bear, translate_zero,
+     atan2 lemmas.
    All statements are about the generated gcd / bear / translate.  Axioms: the real-number axioms
    of the standard library only. *)
 From Coq Require Import Reals Lra Nsatz Psatz.
@@ -26,6 +29,15 @@ Definition east (ra dec : R) : vec := (- sin (rad ra), cos (rad ra), 0).
 
 (* ---------------------------------------------------------------------------------------- *)
 (* normal forms of the generated bodies *)
+(* gcd = deg (atan2 (hypot sep_y sep_x) sep_z): (sep_y, sep_x) are the components of the cross product of the two unit
+   vectors in the tangent frame at point 1 (its length is |u x v|), sep_z is the dot product *)
+Definition sep_y (ra1 dec1 ra2 dec2 : R) : R := cos (rad dec2) * sin (rad (ra2 - ra1)).
+Definition sep_x (ra1 dec1 ra2 dec2 : R) : R :=
+  cos (rad dec1) * sin (rad dec2) - sin (rad dec1) * cos (rad dec2) * cos (rad (ra2 - ra1)).
+Definition sep_z (ra1 dec1 ra2 dec2 : R) : R :=
+  sin (rad dec1) * sin (rad dec2) + cos (rad dec1) * cos (rad dec2) * cos (rad (ra2 - ra1)).
+(* the haversine of the separation (the form of gcd before the repair of the near-antipodal accuracy; kept: the
+   interval certificates of C16 bound gcd through it, see gcd_hav / gcd_asin) *)
 Definition hav (ra1 dec1 ra2 dec2 : R) : R :=
   sin (rad (dec2 - dec1) / 2) ^ 2 + cos (rad dec1) * cos (rad dec2) * sin (rad (ra2 - ra1) / 2) ^ 2.
 Definition bear_y (ra1 dec1 ra2 dec2 : R) : R := sin (rad (ra2 - ra1)) * cos (rad dec2).
@@ -75,7 +87,8 @@ Qed.
 
 (* the characterising lemmas of the three generated leaves *)
 Lemma gcd_eq ra1 dec1 ra2 dec2 :
-  gcd ra1 dec1 ra2 dec2 = deg (2 * asin (Rmin 1 (sqrt (hav ra1 dec1 ra2 dec2)))).
+  gcd ra1 dec1 ra2 dec2 =
+  deg (atan2 (hypot (sep_y ra1 dec1 ra2 dec2) (sep_x ra1 dec1 ra2 dec2)) (sep_z ra1 dec1 ra2 dec2)).
 Proof. reflexivity. Qed.
 Lemma bear_eq ra1 dec1 ra2 dec2 :
   bear ra1 dec1 ra2 dec2 = deg (atan2 (bear_y ra1 dec1 ra2 dec2) (bear_x ra1 dec1 ra2 dec2)).
@@ -184,119 +197,6 @@ Qed.
 Lemma hav_sym ra1 dec1 ra2 dec2 : hav ra1 dec1 ra2 dec2 = hav ra2 dec2 ra1 dec1.
 Proof. rewrite !hav_dot, dot_comm. reflexivity. Qed.
 
-(* ---------------------------------------------------------------------------------------- *)
-(* gcd *)
-Lemma gcd_asin ra1 dec1 ra2 dec2 :
-  rad (gcd ra1 dec1 ra2 dec2) = 2 * asin (sqrt (hav ra1 dec1 ra2 dec2)) /\
-  0 <= sqrt (hav ra1 dec1 ra2 dec2) <= 1.
-Proof.
-  pose proof (hav_range ra1 dec1 ra2 dec2) as [H0 H1].
-  assert (Hs : 0 <= sqrt (hav ra1 dec1 ra2 dec2) <= 1).
-  { split; [apply sqrt_pos|]. rewrite <- sqrt_1. apply sqrt_le_1_alt; lra. }
-  split; [|exact Hs]. rewrite gcd_eq, rad_deg, Rmin_right by lra. reflexivity.
-Qed.
-
-Lemma gcd_sym ra1 dec1 ra2 dec2 : gcd ra1 dec1 ra2 dec2 = gcd ra2 dec2 ra1 dec1.
-Proof. rewrite !gcd_eq, hav_sym. reflexivity. Qed.
-
-Lemma asin_range01 x : 0 <= x <= 1 -> 0 <= asin x <= PI / 2.
-Proof.
-  intros [H0 H1]. pose proof (asin_bound x) as [Hl Hu]. split; [|exact Hu].
-  destruct (Rle_dec 0 (asin x)) as [|Hn]; [assumption|exfalso].
-  assert (Hneg : asin x < 0) by lra.
-  assert (Hsin : sin (asin x) < 0).
-  { apply sin_lt_0_var; lra. }
-  rewrite sin_asin in Hsin by lra. lra.
-Qed.
-
-Lemma gcd_rad_range ra1 dec1 ra2 dec2 : 0 <= rad (gcd ra1 dec1 ra2 dec2) <= PI.
-Proof.
-  destruct (gcd_asin ra1 dec1 ra2 dec2) as [-> Hs]. pose proof (asin_range01 _ Hs). lra.
-Qed.
-Lemma gcd_range ra1 dec1 ra2 dec2 : 0 <= gcd ra1 dec1 ra2 dec2 <= 180.
-Proof.
-  pose proof (gcd_rad_range ra1 dec1 ra2 dec2) as [H0 H1].
-  rewrite <- (deg_rad (gcd ra1 dec1 ra2 dec2)). rewrite <- deg_0 at 1. rewrite <- deg_PI.
-  split; apply deg_le; assumption.
-Qed.
-
-(* the separation is the angle between the unit vectors *)
-Lemma gcd_vector ra1 dec1 ra2 dec2 :
-  cos (rad (gcd ra1 dec1 ra2 dec2)) = dot (uvec ra1 dec1) (uvec ra2 dec2).
-Proof.
-  destruct (gcd_asin ra1 dec1 ra2 dec2) as [-> Hs].
-  rewrite cos_2a_sin, sin_asin by lra.
-  rewrite Rmult_assoc, sqrt_sqrt by apply hav_range.
-  rewrite hav_dot. field.
-Qed.
-Lemma gcd_angle ra1 dec1 ra2 dec2 :
-  gcd ra1 dec1 ra2 dec2 = deg (acos (dot (uvec ra1 dec1) (uvec ra2 dec2))).
-Proof.
-  rewrite <- gcd_vector, acos_cos by apply gcd_rad_range. symmetry; apply deg_rad.
-Qed.
-Lemma gcd_zero_iff ra1 dec1 ra2 dec2 :
-  gcd ra1 dec1 ra2 dec2 = 0 <-> uvec ra1 dec1 = uvec ra2 dec2.
-Proof.
-  rewrite <- (dot_unit_one _ _ (uvec_unit ra1 dec1) (uvec_unit ra2 dec2)), <- gcd_vector. split.
-  - intros ->. rewrite rad_0. apply cos_0.
-  - intros H.
-    pose proof (gcd_rad_range ra1 dec1 ra2 dec2) as Hr.
-    assert (H0 : rad (gcd ra1 dec1 ra2 dec2) = 0).
-    { apply cos_inj; [exact Hr | pose proof PI_RGT_0; lra | rewrite cos_0; exact H]. }
-    rewrite <- (deg_rad (gcd ra1 dec1 ra2 dec2)), H0. apply deg_0.
-Qed.
-(* ---------------------------------------------------------------------------------------- *)
-(* triangle inequality for the angle between unit vectors, then for gcd *)
-Lemma angle_triangle_cos (p q r : vec) : unit p -> unit q -> unit r ->
-  let X := dot p r - dot p q * dot q r in
-  X * X <= (1 - dot p q * dot p q) * (1 - dot q r * dot q r).
-Proof.
-  destruct p as [[p1 p2] p3], q as [[q1 q2] q3], r as [[r1 r2] r3]. unfold unit, dot. intros Hp Hq Hr. cbv zeta.
-  set (a := p1 * q1 + p2 * q2 + p3 * q3). set (b := q1 * r1 + q2 * r2 + q3 * r3).
-  (* components of p and r orthogonal to q *)
-  set (P1 := p1 - a * q1); set (P2 := p2 - a * q2); set (P3 := p3 - a * q3).
-  set (R1 := r1 - b * q1); set (R2 := r2 - b * q2); set (R3 := r3 - b * q3).
-  assert (HPP : P1 * P1 + P2 * P2 + P3 * P3 = 1 - a * a) by (unfold P1, P2, P3, a; nsatz).
-  assert (HRR : R1 * R1 + R2 * R2 + R3 * R3 = 1 - b * b) by (unfold R1, R2, R3, b; nsatz).
-  assert (HPR : P1 * R1 + P2 * R2 + P3 * R3 = p1 * r1 + p2 * r2 + p3 * r3 - a * b)
-    by (unfold P1, P2, P3, R1, R2, R3, a, b; nsatz).
-  rewrite <- HPP, <- HRR, <- HPR.
-  (* Lagrange identity *)
-  assert (HL : (P1 * P1 + P2 * P2 + P3 * P3) * (R1 * R1 + R2 * R2 + R3 * R3)
-               - (P1 * R1 + P2 * R2 + P3 * R3) * (P1 * R1 + P2 * R2 + P3 * R3)
-               = (P1 * R2 - P2 * R1) * (P1 * R2 - P2 * R1) + (P1 * R3 - P3 * R1) * (P1 * R3 - P3 * R1)
-                 + (P2 * R3 - P3 * R2) * (P2 * R3 - P3 * R2)) by ring.
-  pose proof (Rle_0_sqr (P1 * R2 - P2 * R1)). pose proof (Rle_0_sqr (P1 * R3 - P3 * R1)).
-  pose proof (Rle_0_sqr (P2 * R3 - P3 * R2)). unfold Rsqr in *. lra.
-Qed.
-
-Lemma gcd_triangle ra1 dec1 ra2 dec2 ra3 dec3 :
-  gcd ra1 dec1 ra3 dec3 <= gcd ra1 dec1 ra2 dec2 + gcd ra2 dec2 ra3 dec3.
-Proof.
-  pose proof PI_RGT_0 as HPI.
-  set (a := rad (gcd ra1 dec1 ra2 dec2)). set (b := rad (gcd ra2 dec2 ra3 dec3)).
-  set (c := rad (gcd ra1 dec1 ra3 dec3)).
-  assert (Hgoal : c <= a + b).
-  2:{ unfold a, b, c, rad in Hgoal. nra. }
-  pose proof (gcd_rad_range ra1 dec1 ra2 dec2) as Ha. fold a in Ha.
-  pose proof (gcd_rad_range ra2 dec2 ra3 dec3) as Hb. fold b in Hb.
-  pose proof (gcd_rad_range ra1 dec1 ra3 dec3) as Hc. fold c in Hc.
-  destruct (Rle_dec PI (a + b)) as [Hbig|Hsmall]; [lra|].
-  apply cos_decr_0; try lra.
-  rewrite cos_plus.
-  pose proof (angle_triangle_cos _ _ _ (uvec_unit ra1 dec1) (uvec_unit ra2 dec2) (uvec_unit ra3 dec3)) as HX.
-  cbv zeta in HX. rewrite <- !gcd_vector in HX. fold a b c in HX.
-  assert (Hsa : 0 <= sin a) by (apply sin_ge_0; lra).
-  assert (Hsb : 0 <= sin b) by (apply sin_ge_0; lra).
-  pose proof (sin2_cos2 a) as H2a. pose proof (sin2_cos2 b) as H2b. unfold Rsqr in *.
-  replace (1 - cos a * cos a) with (sin a * sin a) in HX by lra.
-  replace (1 - cos b * cos b) with (sin b * sin b) in HX by lra.
-  set (X := cos c - cos a * cos b) in *. set (S := sin a * sin b).
-  assert (HS : 0 <= S) by (unfold S; nra).
-  assert (HXS : X * X <= S * S) by (unfold S; nra).
-  assert (- S <= X) by nra.
-  unfold X, S in *. lra.
-Qed.
 (* ---------------------------------------------------------------------------------------- *)
 (* numpy-style atan2 *)
 Lemma sqrt_sq_sum_pos x y : 0 < x -> sqrt (x*x + y*y) = x * sqrt (1 + (y/x)²).
@@ -421,6 +321,206 @@ Lemma atan2_0_0 : atan2 0 0 = 0.
 Proof.
   unfold atan2. destruct (Rlt_dec 0 0) as [H|_]; [lra|]. destruct (Rlt_dec 0 0) as [H|_]; [lra|]. reflexivity.
 Qed.
+(* a non-negative first argument puts atan2 into [0, PI] *)
+Lemma atan2_nonneg y x : 0 <= y -> 0 <= atan2 y x <= PI.
+Proof.
+  intros Hy. pose proof PI_RGT_0 as HPI. pose proof (atan2_range y x) as [_ Hu]. split; [|exact Hu].
+  unfold atan2.
+  destruct (Rlt_dec 0 x) as [Hx|Hx].
+  - assert (H : 0 <= y / x).
+    { unfold Rdiv. assert (0 < / x) by (apply Rinv_0_lt_compat; lra). nra. }
+    rewrite <- atan_0. destruct H as [H|H]; [left; apply atan_increasing; exact H | right; rewrite <- H; reflexivity].
+  - destruct (Rlt_dec x 0) as [Hx'|Hx'].
+    + destruct (Rle_dec 0 y) as [_|Hn]; [|contradiction]. pose proof (atan_bound (y / x)). lra.
+    + destruct (Rlt_dec 0 y); [lra|]. destruct (Rlt_dec y 0); lra.
+Qed.
+(* the angle of a unit vector (c, s) in the upper half plane is acos c *)
+Lemma atan2_acos s c : 0 <= s -> s * s + c * c = 1 -> atan2 s c = acos c.
+Proof.
+  intros Hs Hu.
+  assert (Hnz : c <> 0 \/ s <> 0).
+  { destruct (Req_dec c 0) as [Hc|]; [|left; assumption]. right. intros H0. subst. lra. }
+  pose proof (cos_atan2 s c Hnz) as Hc.
+  replace (c * c + s * s) with 1 in Hc by lra. rewrite sqrt_1, Rmult_1_l in Hc.
+  rewrite <- Hc at 2. symmetry. apply acos_cos. apply atan2_nonneg; assumption.
+Qed.
+(* half-angle bridge between the arccosine and the haversine form *)
+Lemma acos_half_asin c : -1 <= c <= 1 -> acos c = 2 * asin (sqrt ((1 - c) / 2)).
+Proof.
+  intros Hc. pose proof (acos_bound c) as Hb. pose proof PI_RGT_0 as HPI.
+  set (f := acos c) in *.
+  assert (Hcf : c = cos f) by (unfold f; rewrite cos_acos; [reflexivity | lra]).
+  assert (Hh : (1 - c) / 2 = sin (f / 2) * sin (f / 2)).
+  { rewrite Hcf. replace f with (2 * (f / 2)) at 1 by field. rewrite cos_2a_sin. field. }
+  assert (Hs : 0 <= sin (f / 2)) by (apply sin_ge_0; lra).
+  rewrite Hh, sqrt_square by exact Hs. rewrite asin_sin by lra. field.
+Qed.
+(* ---------------------------------------------------------------------------------------- *)
+(* gcd *)
+(* the normal form in vector terms: sep_z = u.v and hypot sep_y sep_x = |u x v| = sqrt (1 - (u.v)^2) *)
+Lemma sep_z_dot ra1 dec1 ra2 dec2 : sep_z ra1 dec1 ra2 dec2 = dot (uvec ra1 dec1) (uvec ra2 dec2).
+Proof. rewrite dot_uvec. unfold sep_z. ring. Qed.
+Lemma sep_bear ra1 dec1 ra2 dec2 :
+  sep_y ra1 dec1 ra2 dec2 = bear_y ra1 dec1 ra2 dec2 /\ sep_x ra1 dec1 ra2 dec2 = bear_x ra1 dec1 ra2 dec2.
+Proof. unfold sep_y, sep_x, bear_y, bear_x. split; ring. Qed.
+Lemma sep_hyp ra1 dec1 ra2 dec2 :
+  sep_y ra1 dec1 ra2 dec2 * sep_y ra1 dec1 ra2 dec2 + sep_x ra1 dec1 ra2 dec2 * sep_x ra1 dec1 ra2 dec2
+  = 1 - sep_z ra1 dec1 ra2 dec2 * sep_z ra1 dec1 ra2 dec2.
+Proof.
+  unfold sep_y, sep_x, sep_z.
+  pose proof (sin2_cos2 (rad dec1)) as H1. pose proof (sin2_cos2 (rad dec2)) as H2.
+  pose proof (sin2_cos2 (rad (ra2 - ra1))) as H3. unfold Rsqr in *.
+  set (s1 := sin (rad dec1)) in *; set (c1 := cos (rad dec1)) in *;
+  set (s2 := sin (rad dec2)) in *; set (c2 := cos (rad dec2)) in *;
+  set (sd := sin (rad (ra2 - ra1))) in *; set (cd := cos (rad (ra2 - ra1))) in *. nsatz.
+Qed.
+(* bridge from the atan2 form to the angle between the unit vectors: for unit vectors |u x v|^2 + (u.v)^2 = 1,
+   so atan2 |u x v| (u.v) is the angle in [0, PI] whose cosine is u.v *)
+Lemma gcd_acos ra1 dec1 ra2 dec2 :
+  rad (gcd ra1 dec1 ra2 dec2) = acos (dot (uvec ra1 dec1) (uvec ra2 dec2)).
+Proof.
+  rewrite gcd_eq, rad_deg, <- sep_z_dot. apply atan2_acos.
+  - unfold hypot. apply sqrt_pos.
+  - pose proof (sep_hyp ra1 dec1 ra2 dec2) as Hh. unfold hypot. rewrite sqrt_sqrt; [lra|].
+    pose proof (Rle_0_sqr (sep_y ra1 dec1 ra2 dec2)). pose proof (Rle_0_sqr (sep_x ra1 dec1 ra2 dec2)).
+    unfold Rsqr in *. lra.
+Qed.
+(* the same statement with the cross product spelled out: gcd = atan2 |u x v| (u.v), the "independent vector formula" *)
+Definition cross (u v : vec) : vec :=
+  let '(a, b, c) := u in let '(d, e, f) := v in (b * f - c * e, c * d - a * f, a * e - b * d).
+Definition norm (u : vec) : R := sqrt (dot u u).
+Lemma cross_lagrange u v : dot (cross u v) (cross u v) = dot u u * dot v v - dot u v * dot u v.
+Proof. destruct u as [[a b] c], v as [[d e] f]. unfold cross, dot. ring. Qed.
+Lemma sep_cross ra1 dec1 ra2 dec2 :
+  hypot (sep_y ra1 dec1 ra2 dec2) (sep_x ra1 dec1 ra2 dec2) = norm (cross (uvec ra1 dec1) (uvec ra2 dec2)).
+Proof.
+  unfold hypot, norm. rewrite cross_lagrange, sep_hyp, sep_z_dot.
+  pose proof (uvec_unit ra1 dec1) as H1. pose proof (uvec_unit ra2 dec2) as H2. unfold unit in *.
+  rewrite H1, H2. f_equal. ring.
+Qed.
+Lemma gcd_cross ra1 dec1 ra2 dec2 :
+  gcd ra1 dec1 ra2 dec2 =
+  deg (atan2 (norm (cross (uvec ra1 dec1) (uvec ra2 dec2))) (dot (uvec ra1 dec1) (uvec ra2 dec2))).
+Proof. rewrite gcd_eq, sep_cross, sep_z_dot. reflexivity. Qed.
+(* the haversine form (the text of gcd before the repair) is a derived normal form *)
+Lemma gcd_asin ra1 dec1 ra2 dec2 :
+  rad (gcd ra1 dec1 ra2 dec2) = 2 * asin (sqrt (hav ra1 dec1 ra2 dec2)) /\
+  0 <= sqrt (hav ra1 dec1 ra2 dec2) <= 1.
+Proof.
+  pose proof (hav_range ra1 dec1 ra2 dec2) as [H0 H1].
+  assert (Hs : 0 <= sqrt (hav ra1 dec1 ra2 dec2) <= 1).
+  { split; [apply sqrt_pos|]. rewrite <- sqrt_1. apply sqrt_le_1_alt; lra. }
+  split; [|exact Hs]. rewrite gcd_acos, hav_dot. apply acos_half_asin.
+  apply dot_unit_range; apply uvec_unit.
+Qed.
+Lemma gcd_hav ra1 dec1 ra2 dec2 :
+  gcd ra1 dec1 ra2 dec2 = deg (2 * asin (Rmin 1 (sqrt (hav ra1 dec1 ra2 dec2)))).
+Proof.
+  destruct (gcd_asin ra1 dec1 ra2 dec2) as [Hg Hs].
+  rewrite Rmin_right by lra. rewrite <- Hg. symmetry; apply deg_rad.
+Qed.
+
+Lemma gcd_sym ra1 dec1 ra2 dec2 : gcd ra1 dec1 ra2 dec2 = gcd ra2 dec2 ra1 dec1.
+Proof. rewrite !gcd_hav, hav_sym. reflexivity. Qed.
+
+Lemma asin_range01 x : 0 <= x <= 1 -> 0 <= asin x <= PI / 2.
+Proof.
+  intros [H0 H1]. pose proof (asin_bound x) as [Hl Hu]. split; [|exact Hu].
+  destruct (Rle_dec 0 (asin x)) as [|Hn]; [assumption|exfalso].
+  assert (Hneg : asin x < 0) by lra.
+  assert (Hsin : sin (asin x) < 0).
+  { apply sin_lt_0_var; lra. }
+  rewrite sin_asin in Hsin by lra. lra.
+Qed.
+
+Lemma gcd_rad_range ra1 dec1 ra2 dec2 : 0 <= rad (gcd ra1 dec1 ra2 dec2) <= PI.
+Proof.
+  destruct (gcd_asin ra1 dec1 ra2 dec2) as [-> Hs]. pose proof (asin_range01 _ Hs). lra.
+Qed.
+Lemma gcd_range ra1 dec1 ra2 dec2 : 0 <= gcd ra1 dec1 ra2 dec2 <= 180.
+Proof.
+  pose proof (gcd_rad_range ra1 dec1 ra2 dec2) as [H0 H1].
+  rewrite <- (deg_rad (gcd ra1 dec1 ra2 dec2)). rewrite <- deg_0 at 1. rewrite <- deg_PI.
+  split; apply deg_le; assumption.
+Qed.
+
+(* the separation is the angle between the unit vectors *)
+Lemma gcd_vector ra1 dec1 ra2 dec2 :
+  cos (rad (gcd ra1 dec1 ra2 dec2)) = dot (uvec ra1 dec1) (uvec ra2 dec2).
+Proof.
+  destruct (gcd_asin ra1 dec1 ra2 dec2) as [-> Hs].
+  rewrite cos_2a_sin, sin_asin by lra.
+  rewrite Rmult_assoc, sqrt_sqrt by apply hav_range.
+  rewrite hav_dot. field.
+Qed.
+Lemma gcd_angle ra1 dec1 ra2 dec2 :
+  gcd ra1 dec1 ra2 dec2 = deg (acos (dot (uvec ra1 dec1) (uvec ra2 dec2))).
+Proof.
+  rewrite <- gcd_vector, acos_cos by apply gcd_rad_range. symmetry; apply deg_rad.
+Qed.
+Lemma gcd_zero_iff ra1 dec1 ra2 dec2 :
+  gcd ra1 dec1 ra2 dec2 = 0 <-> uvec ra1 dec1 = uvec ra2 dec2.
+Proof.
+  rewrite <- (dot_unit_one _ _ (uvec_unit ra1 dec1) (uvec_unit ra2 dec2)), <- gcd_vector. split.
+  - intros ->. rewrite rad_0. apply cos_0.
+  - intros H.
+    pose proof (gcd_rad_range ra1 dec1 ra2 dec2) as Hr.
+    assert (H0 : rad (gcd ra1 dec1 ra2 dec2) = 0).
+    { apply cos_inj; [exact Hr | pose proof PI_RGT_0; lra | rewrite cos_0; exact H]. }
+    rewrite <- (deg_rad (gcd ra1 dec1 ra2 dec2)), H0. apply deg_0.
+Qed.
+(* ---------------------------------------------------------------------------------------- *)
+(* triangle inequality for the angle between unit vectors, then for gcd *)
+Lemma angle_triangle_cos (p q r : vec) : unit p -> unit q -> unit r ->
+  let X := dot p r - dot p q * dot q r in
+  X * X <= (1 - dot p q * dot p q) * (1 - dot q r * dot q r).
+Proof.
+  destruct p as [[p1 p2] p3], q as [[q1 q2] q3], r as [[r1 r2] r3]. unfold unit, dot. intros Hp Hq Hr. cbv zeta.
+  set (a := p1 * q1 + p2 * q2 + p3 * q3). set (b := q1 * r1 + q2 * r2 + q3 * r3).
+  (* components of p and r orthogonal to q *)
+  set (P1 := p1 - a * q1); set (P2 := p2 - a * q2); set (P3 := p3 - a * q3).
+  set (R1 := r1 - b * q1); set (R2 := r2 - b * q2); set (R3 := r3 - b * q3).
+  assert (HPP : P1 * P1 + P2 * P2 + P3 * P3 = 1 - a * a) by (unfold P1, P2, P3, a; nsatz).
+  assert (HRR : R1 * R1 + R2 * R2 + R3 * R3 = 1 - b * b) by (unfold R1, R2, R3, b; nsatz).
+  assert (HPR : P1 * R1 + P2 * R2 + P3 * R3 = p1 * r1 + p2 * r2 + p3 * r3 - a * b)
+    by (unfold P1, P2, P3, R1, R2, R3, a, b; nsatz).
+  rewrite <- HPP, <- HRR, <- HPR.
+  (* Lagrange identity *)
+  assert (HL : (P1 * P1 + P2 * P2 + P3 * P3) * (R1 * R1 + R2 * R2 + R3 * R3)
+               - (P1 * R1 + P2 * R2 + P3 * R3) * (P1 * R1 + P2 * R2 + P3 * R3)
+               = (P1 * R2 - P2 * R1) * (P1 * R2 - P2 * R1) + (P1 * R3 - P3 * R1) * (P1 * R3 - P3 * R1)
+                 + (P2 * R3 - P3 * R2) * (P2 * R3 - P3 * R2)) by ring.
+  pose proof (Rle_0_sqr (P1 * R2 - P2 * R1)). pose proof (Rle_0_sqr (P1 * R3 - P3 * R1)).
+  pose proof (Rle_0_sqr (P2 * R3 - P3 * R2)). unfold Rsqr in *. lra.
+Qed.
+
+Lemma gcd_triangle ra1 dec1 ra2 dec2 ra3 dec3 :
+  gcd ra1 dec1 ra3 dec3 <= gcd ra1 dec1 ra2 dec2 + gcd ra2 dec2 ra3 dec3.
+Proof.
+  pose proof PI_RGT_0 as HPI.
+  set (a := rad (gcd ra1 dec1 ra2 dec2)). set (b := rad (gcd ra2 dec2 ra3 dec3)).
+  set (c := rad (gcd ra1 dec1 ra3 dec3)).
+  assert (Hgoal : c <= a + b).
+  2:{ unfold a, b, c, rad in Hgoal. nra. }
+  pose proof (gcd_rad_range ra1 dec1 ra2 dec2) as Ha. fold a in Ha.
+  pose proof (gcd_rad_range ra2 dec2 ra3 dec3) as Hb. fold b in Hb.
+  pose proof (gcd_rad_range ra1 dec1 ra3 dec3) as Hc. fold c in Hc.
+  destruct (Rle_dec PI (a + b)) as [Hbig|Hsmall]; [lra|].
+  apply cos_decr_0; try lra.
+  rewrite cos_plus.
+  pose proof (angle_triangle_cos _ _ _ (uvec_unit ra1 dec1) (uvec_unit ra2 dec2) (uvec_unit ra3 dec3)) as HX.
+  cbv zeta in HX. rewrite <- !gcd_vector in HX. fold a b c in HX.
+  assert (Hsa : 0 <= sin a) by (apply sin_ge_0; lra).
+  assert (Hsb : 0 <= sin b) by (apply sin_ge_0; lra).
+  pose proof (sin2_cos2 a) as H2a. pose proof (sin2_cos2 b) as H2b. unfold Rsqr in *.
+  replace (1 - cos a * cos a) with (sin a * sin a) in HX by lra.
+  replace (1 - cos b * cos b) with (sin b * sin b) in HX by lra.
+  set (X := cos c - cos a * cos b) in *. set (S := sin a * sin b).
+  assert (HS : 0 <= S) by (unfold S; nra).
+  assert (HXS : X * X <= S * S) by (unfold S; nra).
+  assert (- S <= X) by nra.
+  unfold X, S in *. lra.
+Qed.
 (* ---------------------------------------------------------------------------------------- *)
 (* bearing = position angle: the direction of point 2 seen from point 1, measured in the tangent
    plane at point 1 from local north through local east *)
@@ -538,7 +638,7 @@ Section Translate.
   Theorem translate_gcd : 0 < r < 180 -> gcd ra dec ra' dec' = r.
   Proof.
     intros Hr. pose proof PI_RGT_0 as HPI.
-    rewrite gcd_eq, translate_hav.
+    rewrite gcd_hav, translate_hav.
     assert (Hhalf : 0 < rad r / 2 < PI / 2) by (unfold rad; split; nra).
     assert (Hs : 0 < sin (rad r / 2)) by (apply sin_gt_0; lra).
     replace (sin (rad r / 2) ^ 2) with (sin (rad r / 2) * sin (rad r / 2)) by ring.
